@@ -873,6 +873,7 @@ func (lwc *lockWriteCloser) Close() error {
 		return nil
 	}
 	defer lwc.m.Unlock()
+	lwc.w.closeOpenElements()
 	if err := lwc.Flush(); err != nil {
 		lwc.err = err
 		return err
@@ -1047,6 +1048,7 @@ func (s *Session) Encode(ctx context.Context, v interface{}) error {
 	}
 
 	defer setWriteDeadline(ctx, s.conn)()
+	defer s.closeOpenElements()
 	return marshal.EncodeXML(s.out.e, v)
 }
 
@@ -1062,6 +1064,7 @@ func (s *Session) EncodeElement(ctx context.Context, v interface{}, start xml.St
 	}
 
 	defer setWriteDeadline(ctx, s.conn)()
+	defer s.closeOpenElements()
 	return marshal.EncodeXMLElement(s.out.e, v, start)
 }
 
@@ -1088,6 +1091,7 @@ func send(ctx context.Context, s *Session, r xml.TokenReader, start *xml.StartEl
 	}
 
 	defer setWriteDeadline(ctx, s.conn)()
+	defer s.closeOpenElements()
 
 	if start == nil {
 		tok, err := r.Token()
@@ -1176,8 +1180,11 @@ func (s *Session) closeInputStream() {
 type stanzaEncoder struct {
 	xmlstream.TokenWriteFlusher
 	depth int
-	from  jid.JID
-	ns    string
+	// open holds the names of the elements that have been started but not yet
+	// ended, as they were written.
+	open []xml.Name
+	from jid.JID
+	ns   string
 }
 
 func (se *stanzaEncoder) EncodeToken(t xml.Token) error {
@@ -1269,8 +1276,40 @@ func (se *stanzaEncoder) EncodeToken(t xml.Token) error {
 		// A token that was refused is not part of the output: do not let it
 		// change what we consider to be the top level.
 		se.depth = depth
+		return err
 	}
-	return err
+	switch tok := t.(type) {
+	case xml.StartElement:
+		se.open = append(se.open, tok.Name)
+	case xml.EndElement:
+		if len(se.open) > 0 {
+			se.open = se.open[:len(se.open)-1]
+		}
+	}
+	return nil
+}
+
+// closeOpen ends any elements that were started but never ended, for instance
+// because the token reader that was being copied failed half way through, so
+// that whatever is written next is a top-level element again and not a child
+// of the unfinished one.
+func (se *stanzaEncoder) closeOpen() {
+	for len(se.open) > 0 {
+		name := se.open[len(se.open)-1]
+		if err := se.TokenWriteFlusher.EncodeToken(xml.EndElement{Name: name}); err != nil {
+			return
+		}
+		se.open = se.open[:len(se.open)-1]
+		se.depth--
+	}
+}
+
+// closeOpenElements must be called with the output lock held before it is
+// released by anything that writes to the output stream.
+func (s *Session) closeOpenElements() {
+	if se, ok := s.out.e.(*stanzaEncoder); ok {
+		se.closeOpen()
+	}
 }
 
 // UpdateAddr sets the address used by the session.
